@@ -226,6 +226,8 @@ def tunnelH : Handler := fun inp impl => do
   let iup ← (do let x ← impl.getObjValAs? String "up"; hexDecode x)
   let icl ← (do let x ← impl.getObjValAs? String "cl"; hexDecode x)
   let iserved := (impl.getObjValAs? Bool "served").toOption.getD true
+  -- the client finishes first (orders client / halfclose / halfidle): the upstream is told (EOF behind the data)
+  let ieof := (impl.getObjValAs? Bool "eof_seen").toOption.getD true
   -- a large final client burst travels as (length, seed); the harness reports how many bytes arrived behind
   -- the head and whether they are exactly the burst's first bytes
   let burst := (inp.getObjValAs? Nat "burst").toOption.getD 0
@@ -260,7 +262,8 @@ def tunnelH : Handler := fun inp impl => do
   -- order `halfidle`: has the handler ended once the server closed the client connection?
   let mserved := !(tunnel && order == .halfIdle) || t.torn
   let m := Json.mkObj [("up", hexEncode mup), ("cl", hexEncode mcl), ("burst_got", mburst), ("burst_ok", true),
-    ("warm_up", hexEncode mwup), ("served", mserved)]
+    ("warm_up", hexEncode mwup), ("served", mserved),
+    ("eof_seen", !(tunnel && order != .upstream) || t.upEOF)]
   let timeouts := (inp.getObjValAs? Nat "rt_ms").toOption.getD 0 > 0 || (inp.getObjValAs? Nat "wt_ms").toOption.getD 0 > 0
   -- the specification, on what the endpoints actually received
   -- "once a connection is tunnelled": the proxy's own Lookup call returned a target (observed, so that a
@@ -268,7 +271,8 @@ def tunnelH : Handler := fun inp impl => do
   let expectTunnel := (impl.getObjValAs? String "lookup").toOption == some "hit"
   let wantUp := line ++ stream
   let wantCl := ustream ++ reply
-  let spec := (!expectTunnel || (iup == wantUp && icl == wantCl && ibg == burst && ibok && (order != .halfIdle || iserved))) &&
+  let spec := (!expectTunnel || (iup == wantUp && icl == wantCl && ibg == burst && ibok && (order != .halfIdle || iserved) &&
+      (order == .upstream || ieof))) &&
     (warm.isNone || !wTunnel || iwup == wline ++ wstream)
   let segs := numChunks s
   let tag :=
@@ -279,8 +283,9 @@ def tunnelH : Handler := fun inp impl => do
     else path ++ (match order with | .client => "-client" | .upstream => "-upstream" | .halfClose => "-half" | .halfIdle => "-halfidle") ++
       (if excess != [] then "-readahead" else "") ++ (if pxy then "-pxy" else "") ++
       (if late then "-late" else "") ++ (if burst > 0 then "-burst" else "") ++
-      (if warm.isSome then "-second" else "") ++ (if timeouts then "-timeouts" else "")
-  return ({ model := m, agree := mup == iup && mcl == icl && mburst == ibg && ibok && mwup == iwup && (!expectTunnel || mserved == iserved), spec := spec,
+      (if warm.isSome then "-second" else "") ++ (if timeouts then "-timeouts" else "") ++
+      (if (inp.getObjValAs? Bool "duplex").toOption.getD false then "-duplex" else "")
+  return ({ model := m, agree := mup == iup && mcl == icl && mburst == ibg && ibok && mwup == iwup && (!expectTunnel || (mserved == iserved && ieof)), spec := spec,
             nontrivial := expectTunnel && stream != [] && (segs ≥ 2 || ustream != []),
             tag := tag } : Verdict).toJson
 
@@ -302,14 +307,15 @@ def wsH : Handler := fun inp impl => do
   let t := scenario codeMode [] (tcpServe [] s).1 (extra ++ ustream) reply order
   let m := Json.mkObj [("up", hexEncode t.upSaw), ("cl", hexEncode t.clSaw), ("burst_got", burst), ("burst_ok", true)]
   let wantCl := extra ++ ustream ++ reply
-  let spec := hs && iup == stream && icl == wantCl && ibg == burst && ibok
+  let ieof := (impl.getObjValAs? Bool "eof_seen").toOption.getD true
+  let spec := hs && iup == stream && icl == wantCl && ibg == burst && ibok && (order == .upstream || ieof)
   let tag :=
     if !hs then "handshake-failed"
     else if order == .halfClose && !spec && iup == stream && isPrefix (extra ++ ustream) icl && isPrefix icl wantCl && icl != wantCl then
       "half-close-reply"
     else "ws" ++ (match order with | .client => "-client" | .upstream => "-upstream" | .halfClose => "-half" | .halfIdle => "-halfidle") ++
       (if extra != [] then "-with101" else "") ++ (if burst > 0 then "-burst" else "")
-  return ({ model := m, agree := hs && t.upSaw == iup && t.clSaw == icl && ibg == burst && ibok, spec := spec,
+  return ({ model := m, agree := hs && t.upSaw == iup && t.clSaw == icl && ibg == burst && ibok && ieof, spec := spec,
             nontrivial := stream != [] && (numChunks s ≥ 2 || ustream != []), tag := tag } : Verdict).toJson
 
 def streams : List (String × Handler) :=
